@@ -473,8 +473,10 @@ class Gen:
             groups[i % nsinks].append(f)
         for ups in groups:
             if ups:
-                self.add({'id': self.nid('K'), 'kind': 'sink', 'up': ups, 'ct': rng.choice(p['sink_cts']),
-                          'collect': rng.random() < p['p_collect']})
+                k_id = self.add({'id': self.nid('K'), 'kind': 'sink', 'up': ups, 'ct': rng.choice(p['sink_cts']),
+                                 'collect': rng.random() < p['p_collect']})
+                if p.get('p_sink_fee') and rng.random() < p['p_sink_fee']:
+                    next(x for x in self.items if x['id'] == k_id)['fee'] = rng.choice([0.5, 0.25, 1])
         maint = None
         if rng.random() < p['p_maintainer']:
             mi = {'id': self.nid('M'), 'kind': 'maintainer', 'cap': rng.choice([None, 1, 1, 2, 0.5, 3])}
